@@ -51,4 +51,52 @@ TEXT = {
         "design_ref": "DESIGN.md section 5, C07",
         "level_note": "trusted: reference bitfield codec (checked against the crate's own three unit-test vectors), reference lookup. Offsets that would exceed u32 are only required not to panic.",
     },
+    "C08": {
+        "technique": "runtime monitor: reference flatten and reference section lookup (model level) vs SourceMapIndex::flatten / lookup_token, plus index-vs-flattened differential, on generated index maps inside the statement's precondition",
+        "level_text": "exploration: 60k (quick) / 3M (thorough) index maps inside the precondition; flatten() must equal the reference flatten as a multiset per position (line shift always, column shift on a section's first line only, names/range flags kept, recursion through nested indexes, Hermes sections), first-seen contents and ignore membership per source name, Err exactly when a section is unresolved; index lookups must equal the reference lookup in the section with the greatest offset not after the position, and agree with the flattened map wherever they find a token.",
+        "design_ref": "DESIGN.md section 5, C08",
+        "level_note": "trusted: model-level reference flatten/lookup (harness/src/props/c08.rs). Offsets near 2^32 are C05's business, not asserted here.",
+    },
+    "C09": {
+        "technique": 'runtime monitor: token-by-token comparison before/after rewrite through public accessors over generated maps x option sets; Hermes scopes compared per token',
+        "level_text": 'exploration: 150k / 5M (map, options) pairs; after rewrite the token multiset (position, stripped source name, original position, name or none, range flag, Hermes scope) must equal the expected one, sources/names must contain nothing unreferenced and no unexcused duplicates, contents must follow the source names exactly when kept, file and debug id preserved.',
+        "design_ref": "DESIGN.md section 5, C09",
+        "level_note": "trusted: the prefix rule as documented (first matching prefix, normalised to end in '/'). '~' is only checked as 'suffix at a / boundary'. Hermes inputs have pairwise distinct joined source names.",
+    },
+    "C10": {
+        "technique": "runtime monitor: interval-composition reference (all admissible owner choices) vs adjust_mappings, exhaustive over a 2x4 grid and random beyond; a second 'relaxed' reference recognises exactly the one known deviation",
+        "level_text": "exploration with an exhaustive sub-space: every subset/multiset of <= 3 original tokens x every set of <= 2 adjustment tokens over a 2x4 grid, then random medium grids with duplicated positions; the result must equal one token per non-empty overlap (any owner among tokens sharing a position), carry the original payload unchanged, be ordered, and leave sources/names/contents untouched. KNOWN FINDING (see KNOWN_FINDINGS.txt): extra tokens for empty stretches strictly inside the other side's stretch; recognised by an exact relaxed reference, everything else is a violation.",
+        "design_ref": "DESIGN.md section 5, C10",
+        "level_note": 'trusted: the reference composition in harness/src/props/c10.rs. Cases with more than 64 owner combinations are skipped and counted.',
+    },
+    "C12": {
+        "technique": 'differential runtime monitor with fault enumeration: decode(reader under an enumerated chunk schedule) vs decode_slice vs decode_data_url on valid, truncated and corrupted documents behind enumerated junk headers; reference header rule arbitrates',
+        "level_text": 'fault enumeration: for 2.5k (quick) / 120k (thorough) base documents every header of a 24-entry catalogue and every schedule of the catalogue (incl. a two-chunk boundary at every offset across the header and the first 16 bytes) is applied to the intact document, samples of them to every truncation (every length for small documents) and to single-byte corruptions; outcomes (Err, or Ok with equal observation) must agree between reader and slice, is_sourcemap between reader and slice, a well-formed header must be skipped, a bare CR rejected on both paths, and the base64 data URL (with and without charset parameter) must decode like its payload.',
+        "design_ref": "DESIGN.md section 5, C12",
+        "level_note": "trusted: the 15-line reference header rule, own base64 writer, observation equality. serde_json's reader and slice front ends are part of the system under test here.",
+    },
+    "C13": {
+        "technique": 'runtime model-based monitor: ~60-line sequential interning/join model checked against builder return values and the finished map, and against a map after every prefix of setter / save+load histories',
+        "level_text": 'exploration over histories: 200k (quick) / 6M (thorough) short histories; builder ids must be first-seen ids, every added token must resolve to the strings it was added with (joined with the root), the finished map must report what was set; on maps, after every operation get_source(i) must equal the raw name joined with the current root, the serialised document must carry raw names + root, and repeated save/load must not prefix twice.',
+        "design_ref": "DESIGN.md section 5, C13",
+        "level_note": 'trusted: the sequential model. Only in-range ids are passed to id-taking calls (out-of-range ids panic by documented contract).',
+    },
+    "C14": {
+        "technique": 'runtime monitor: reference Metro function-map encoder + reference enclosing-function lookup vs get_scope_for_token / get_original_function_name on generated Hermes documents, incl. broken function maps and a write+read cycle',
+        "level_text": "exploration: 100k (quick) / 4M (thorough) Hermes documents; every token's scope and ~100 bytecode offsets per map must equal the reference reading (last entry at or before (line+1, column)), nothing for sources without / with unparsable function maps or positions before all entries or name indices out of range, nothing for line != 0 through DecodedMap, decode must succeed although a function map is unparsable, and all answers must survive to_writer + decode.",
+        "design_ref": "DESIGN.md section 5, C14",
+        "level_note": 'trusted: harness/src/reference/metro.rs (self-checked by round trip).',
+    },
+    "C15": {
+        "technique": 'runtime monitor with reference splitter and UTF-16 slicer over all texts up to length 6/8 of a 6-symbol alphabet under 9 access orders; Miri (Stacked Borrows) shard on the lifetime-extended slices, ASan, valgrind',
+        "level_text": "exploration with an exhaustive sub-space: all 56k (quick) / 2M (thorough) texts over {a, e-acute, emoji, space, LF, CR}; per text 9 request orders (ascending, descending, late line first, counts before/after/between, lines() interleaved, clone midway, requests after exhaustion, random) on fresh views and every (line, column, span) triple incl. 2^31 and 2^32-1; a Miri shard runs the same monitor on all texts up to length 3 because get_line builds &'static str from raw parts.",
+        "design_ref": "DESIGN.md section 5, C15",
+        "level_note": 'trusted: reference splitter / slicer (30 lines). Mid-surrogate columns accept both readings.',
+    },
+    "C16": {
+        "technique": 'runtime schedule control: real threads on the real SourceView, interleaved at every lock/atomic operation through the verif_hooks wrappers (DFS with preemption bound + random schedules), free-running stress, Miri many-seeds and TSan; oracle = sequential answers, no panic, no deadlock, view usable afterwards',
+        "level_text": "exploration over schedules: 2 threads x 1 call for every pair of calls on 6 texts with all schedules of <= 3 preemptions (quick) / all schedules (thorough); sampled 2x2 and 3x1 scenarios with bounded enumeration; random schedules for up to 4 threads x 3 calls; free-running rounds of 2..8 threads; a Miri shard (4 seeds x 16 shards quick, weak-memory emulation, data-race detection, Stacked Borrows on the shared 'static slices) and a TSan build (thorough). Every call must return the reference answer, nothing may panic or deadlock, and a probe caller must get correct answers afterwards. Evidence records schedules executed, distinct schedules, distinct yield-point vectors and where preemptions happened.",
+        "design_ref": "DESIGN.md section 5, C16",
+        "level_note": 'trusted: the controller (harness/src/sched.rs) and the hook wrappers in the crate (they delegate to the real std Mutex/AtomicUsize). A schedule is decided by logical steps; the only wall-clock element is a 60 s no-progress guard.',
+    },
 }
